@@ -348,7 +348,7 @@ static bool convert_int(const char *field, int *value)
 {
     char *end;
 
-    *value = strtol(field, &end, 0);
+    *value = strtol(field, &end, 10);
     if (end == field) {
 	return false;
     }
